@@ -19,7 +19,10 @@ RULE = (
     "re-derives objects, links, schema and package records from the unwrapped tree and checks the link<->object "
     "bijection, link targets, uuid uniqueness, owners, records == schemas in use, no empty bookkeeping groups; the "
     "objects must equal the reference model's; the user-visible tree must equal the plain reference tree; after "
-    "reopen the rebuilt index gives the same public picture as the incrementally maintained one. Non-trivial = "
+    "reopen the rebuilt index gives the same public picture as the incrementally maintained one. Further ops: refused "
+    "writes without an open patch, detach_all, single-change patches, delete / copy of the root, node objects and dtypes "
+    "as values, kept (stale) metadata handles, group copy without metadata followed by a delete, flush. Scenario shard: "
+    "copy with a group node on a local_only node, kept .meta objects after delete / move of their node. Non-trivial = "
     "history that copies or moves a node carrying metadata (or annotated descendants) and later empties a schema; "
     "distinct by step kinds + schema multiset"
 )
